@@ -40,6 +40,56 @@ def install():
     fs.wcswidth = wcswidth
 
 
+# ---- extended oracle (C01 'chars' family): also control characters, NUL, CJK, ZWJ -------------------------
+EXT_CHARS = "a\n\t\u754c\u0301\x00 \x7f\u200d\uff25Z~\r"
+
+
+def wcwidth_ext(c):
+    o = ord(c)
+    if o == 0 or o == 0x200d or COMB[0] <= o <= COMB[1]:
+        return 0
+    if o < 32 or 0x7f <= o < 0xa0:
+        return -1
+    if WIDE[0] <= o <= WIDE[1] or 0x4e00 <= o <= 0x9fff:
+        return 2
+    return 1
+
+
+def wcswidth_ext(s, n=None):
+    from chx.domains.segstr import SegStr, Unsupported
+    if isinstance(s, SegStr):
+        raise Unsupported("width of an abstract text")
+    total = 0
+    i = 0
+    for c in s:
+        if n is not None and i >= n:
+            break
+        w = wcwidth_ext(c)
+        if w < 0:
+            return -1
+        total += w
+        i += 1
+    return total
+
+
+def install_ext():
+    import curtsies.formatstring as fs
+    fs.wcwidth = wcwidth_ext
+    fs.wcswidth = wcswidth_ext
+
+
+def selftest_ext():
+    import cwcwidth
+    n = 0
+    for c in EXT_CHARS:
+        assert cwcwidth.wcwidth(c) == wcwidth_ext(c), hex(ord(c))
+        n += 1
+    for s in ("a\u0301", "\u0301", "\x00", "a\nb", "\u754c\u754c", "", "\u200d\u0301", "ab\x7f"):
+        assert cwcwidth.wcswidth(s) == wcswidth_ext(s), repr(s)
+        n += 1
+    return n
+
+
 def selftest():
     import cwcwidth
     n = 0
